@@ -229,6 +229,11 @@ def check_case(case, seed_key, res, tier):
                 if evgen.ninner(case) >= 3:
                     res.add('distinct', evgen.skeleton(case)[:400] + '|' + name + '|' + str(j))
             for cfg, v in vals.items():
+                if cfg == 'raw' and v.dtype.kind in 'fc' and not numpy.isfinite(v).all() and 'default' not in vals:
+                    # the standard pipeline did not finish within its logical/wall budget (explosive simplification: C01's business), so
+                    # whether the non-finite entries are 0*log(0) terms that it removes cannot be told: no verdict on this pair
+                    res.count('raw_nonfinite_default_unavailable')
+                    continue
                 if cfg == 'raw' and v.dtype.kind in 'fc' and not numpy.isfinite(v).all() and 'default' in vals and numpy.isfinite(vals['default']).all():
                     # the un-simplified derivative expression contains 0*log(negative)-like terms that the standard pipeline removes;
                     # the property is about the derivative as evaluated by the standard pipeline
@@ -405,7 +410,7 @@ def finalize(m, tier, seed):
                operator_kinds_under_derivative=len([k for k in c if k.startswith('op/')]),
                skipped_c01_event=c.get('skipped_c01_event', 0), out_of_domain=c.get('out_of_domain', 0), inconclusive_wall=c.get('inconclusive_wall', 0),
                skipped_deadline=c.get('skipped_deadline', 0), refused_not_implemented=c.get('refused_not_implemented', 0), refusals=sorted(m.sets.get('refusals', ())),
-               raw_nonfinite_default_finite=c.get('raw_nonfinite_default_finite', 0),
+               raw_nonfinite_default_finite=c.get('raw_nonfinite_default_finite', 0), raw_nonfinite_default_unavailable=c.get('raw_nonfinite_default_unavailable', 0),
                custom_operations={k[7:]: v for k, v in c.items() if k.startswith('custom/')},
                not_covered=['function.derivative of general function arrays (lowering, replace, linearize) is exercised by C13; here function.Custom operations only'])
     inc = None
